@@ -380,7 +380,10 @@ class FnTr:
                     raise Unsupported(f'append of {v.typ} to {old.typ}')
                 nm = self.gensym(lname(n))
                 self.env[n] = Val(nm, old.typ, path=n)
-                return f'let {nm} := ({old.text} ++ [{v.text}])\n' + self.block(rest)
+                pend, self.pending = self.pending, []            # a raising call in the appended value is bound first
+                inner = f'let {nm} := ({old.text} ++ [{v.text}])\n' + self.block(rest)
+                self.pending = pend
+                return self.wrap(inner)
             hook = self.u.hooks.get('expr_stmt')
             if hook and hook(self, s.value):
                 return self.block(rest)
@@ -638,12 +641,13 @@ class FnTr:
                     self.env[t.id] = Val(nm, v.typ, path=t.id)
                     self.env[t.id].fresh_dict = getattr(v, 'fresh_dict', False)
                     self.narrow.pop(t.id, None)
+                    if (t, v) != pairs[-1]:
+                        lets.append(f'let {nm} := {v.text}')       # `a, b = xs[0], y`: bound below, inside the wrap
+                        continue
                     pend, self.pending = self.pending, []
-                    inner = self.block(rest) if (t, v) == pairs[-1] else None
-                    if inner is None:
-                        raise Unsupported(f'`{self.inst.qual}`: raising call inside a tuple assignment')
+                    inner = self.block(rest)
                     self.pending = pend
-                    return '\n'.join(lets + [self.wrap(f'let {nm} := {v.text}\n{inner}')])
+                    return self.wrap('\n'.join(lets + [f'let {nm} := {v.text}\n{inner}']))
                 lets.append(f'let {nm} := {v.text}')
                 self.env[t.id] = Val(nm, v.typ, path=t.id)
                 self.env[t.id].fresh_dict = getattr(v, 'fresh_dict', False)       # a dict made here may be stored into
@@ -1404,6 +1408,16 @@ class FnTr:
         self.pending = pend
         return self.wrap(inner)
 
+    def expr_bind(self, v):
+        """the text of a value, binding it first if it may raise (hooks that compose several calls in evaluation order)"""
+        if getattr(v, 'raises', False):
+            if not self.inst.raises:
+                raise Unsupported(f'`{self.inst.qual}`: a call that may raise inside an expression')
+            name = self.gensym('r')
+            self.pending.append((name, v.text))
+            return name
+        return v.text
+
     def expr_more(self, e):
         """expression forms beyond the first subset; None = not one of them (the older rules apply)"""
         if isinstance(e, ast.Constant) and isinstance(e.value, str):
@@ -1557,6 +1571,11 @@ class FnTr:
                 if v.typ.startswith('List '):
                     return Val(f'(({v.text}).reverse)', v.typ)            # only ever consumed as a sequence
                 raise Unsupported(f'reversed() of {v.typ}')
+            if f.id == 'len' and len(e.args) == 1:
+                v = self.expr(e.args[0])
+                if v.typ.startswith('List '):
+                    return Val(f'((({v.text}).length : Nat) : Int)', 'Int')
+                raise Unsupported(f'len() of {v.typ}')
             if f.id == 'abs' and len(e.args) == 1:
                 v = self.expr(e.args[0])
                 if v.typ == 'R':
